@@ -441,7 +441,8 @@ impl ImplWhereClause<'_, '_> {
                 );
 
                 if self.contains_async.0 {
-                    push_tokens!(stream, self.plus_send(), self.plus_sync());
+                    // The future only holds a shared reference to T
+                    push_tokens!(stream, self.plus_sync());
                 }
                 push_tokens!(stream, self.plus_static());
             }
@@ -456,7 +457,8 @@ impl ImplWhereClause<'_, '_> {
                 );
 
                 if self.contains_async.0 {
-                    push_tokens!(stream, self.plus_send(), self.plus_sync());
+                    // The future only holds a shared reference to T
+                    push_tokens!(stream, self.plus_sync());
                 }
                 push_tokens!(stream, self.plus_static());
             }
@@ -511,13 +513,6 @@ impl ImplWhereClause<'_, '_> {
         TokenPair(
             syn::token::Plus(self.span),
             syn::Lifetime::new("'static", self.span),
-        )
-    }
-
-    fn plus_send(&self) -> TokenPair<impl ToTokens, impl ToTokens> {
-        TokenPair(
-            syn::token::Plus(self.span),
-            CoreMarker("Send", self.span),
         )
     }
 
